@@ -123,6 +123,7 @@ def run(res):
     res.count('lookups', len(cases))
     res.sample({'lookup': cases[10], 'model': mres[10]})
     res.exhaustive = True
+    session_labels(res)
     n, ok, out = common.kernel_replay(res.pid, 'proto', cases, mres, 150 if res.tier == 'quick' else 1500)
     res.kernel_replays += n
     if not ok:
@@ -233,6 +234,17 @@ def enum_literals(res):
         res.evaluations += 1
         if r != m:
             res.disagree('parse_enum_value differs from model', c, m, r, sig={'entry': 'enumval', 'text': c}, theorem='C07_literal_decimal / C07_literal_hex')
+
+
+def session_labels(res):
+    """names, nil types and enum labels as they come out of whole sessions (state carried from message to message)"""
+    import random
+    import sessioncheck
+    rnd = random.Random(res.seed * 977 + 7)
+    n = 60 if res.tier == 'quick' else 2000
+    cases = [sessioncheck.build_case(rnd, n_events=rnd.choice([30, 60]), chatter=0.0, n_conns=rnd.choice([1, 2]), known_bias=0.95) for _ in range(n)]
+    sessioncheck.run_cases(res, cases, lambda cat: cat.startswith('out.msg') or cat == 'final.ctrl.all', 'C07 (labels inside a session)',
+                           theorem='C07_positional / C07_enum_decode_exact (model of the session)', nontrivial=lambda c, m: False, kernel_sample=4)
 
 
 def replay(dis):
